@@ -136,6 +136,21 @@ PROPS = {
              "collect_trusted_vec1 into Vec / VecDeque / Array1 / polars must reproduce the safely iterated content. distinct = (subject, "
              "yielded length, parameters)",
     ),
+    "C10": dict(
+        bin="c10",
+        quick=[("dbg", 1.0), ("rel", 1.0), ("miri", 1.0), ("mirirel", 1.0)],
+        thorough=[("dbg", 1.0), ("rel", 1.0), ("miri", 1.0), ("mirirel", 1.0), ("asan", 1.0), ("vg", 0.3)],
+        floors={"spy.ugets": 10000, "spy.uslices": 10, "spyout.buffers_verified": 1000, "spyout.usets": 10000, "defined_results": 1000,
+                "cases.window0": 5, "cases.second_series_shorter": 5, "kernel_defined_results": 500, "string_driver_ok": 50,
+                "string_driver_injected_panics": 20},
+        technique="runtime monitoring: instrumented input/output containers (access log, write log, exactly-once), poison + bounds hooks H2/H3; Miri (dev and release-like), ASan and valgrind memcheck on the same call list with real containers",
+        rule="all rolling entry points x inputs (SpyVec default body, SpyVecFast fast-path body, real Vec / Array1 / VecDeque) x outputs "
+             "(SpyOut exactly-once, real Vec / Array1 / VecDeque with poison scan) x {returned, caller buffer}, len 0..N, window 0..=len+3, "
+             "min_periods {None,0..w}, null patterns, second series shorter / longer than the first; vrank / vpartition / varg_partition "
+             "(k 0..=len+3) / vquantile on SpyVec and real backends; String-valued drivers incl. a callback panicking at every position. "
+             "Accepted: fully defined result or clean (ordinary) panic; violation: marked spy/hook panic, poison value, abort, "
+             "sanitizer report. distinct = (function, cell, path, len, window, min_periods, length difference of the second series)",
+    ),
 }
 
 for _k in list(PROPS):
